@@ -1,1 +1,447 @@
-//! Master under test (filled in with the master checks)
+//! Master under test: real MasterTask (production transport/link) over the pipe.
+//! The harness plays the outstation(s), the user and the clock.
+
+use super::*;
+use crate::app::control::*;
+use crate::app::parse::options::ParseOptions;
+use crate::app::variations::{Group12Var1, Group41Var1, Group41Var2, Group41Var3, Group41Var4};
+use crate::app::{BufferSize, FunctionCode, RetryStrategy, Sequence, Timeout, Timestamp, Variation};
+use crate::link::reader::LinkModes;
+use crate::link::{EndpointAddress, LinkErrorMode, LinkReadMode};
+use crate::master::*;
+use crate::util::phys::PhysLayer;
+use crate::util::session::{Enabled, RunError, Session, StopReason};
+use crate::verif::checks::common::decode_level;
+use crate::verif::rec::Recorder;
+use std::sync::{Arc, Mutex};
+use std::time::Duration;
+
+#[derive(Clone, Debug)]
+pub struct AssocCfg {
+    pub addr: u16,
+    pub response_timeout_ms: u64,
+    pub disable_unsol: [bool; 3],
+    pub enable_unsol: [bool; 3],
+    /// class0, 1, 2, 3
+    pub startup_integrity: [bool; 4],
+    pub auto_time_sync: Option<u8>, // 0 lan, 1 non-lan, 2 direct
+    pub retry_min_ms: u64,
+    pub retry_max_ms: u64,
+    pub keep_alive_ms: Option<u64>,
+    pub integrity_on_overflow: bool,
+    pub event_scan: [bool; 3],
+    pub max_queued: usize,
+}
+
+impl AssocCfg {
+    pub fn quiet(addr: u16) -> Self {
+        AssocCfg {
+            addr,
+            response_timeout_ms: 1000,
+            disable_unsol: [false; 3],
+            enable_unsol: [false; 3],
+            startup_integrity: [false; 4],
+            auto_time_sync: None,
+            retry_min_ms: 1000,
+            retry_max_ms: 10_000,
+            keep_alive_ms: None,
+            integrity_on_overflow: false,
+            event_scan: [false; 3],
+            max_queued: 16,
+        }
+    }
+    pub fn default_like(addr: u16) -> Self {
+        AssocCfg {
+            disable_unsol: [true; 3],
+            enable_unsol: [true; 3],
+            startup_integrity: [true; 4],
+            integrity_on_overflow: true,
+            ..Self::quiet(addr)
+        }
+    }
+    pub fn build(&self) -> AssociationConfig {
+        let ec = |a: [bool; 3]| EventClasses::new(a[0], a[1], a[2]);
+        let mut c = AssociationConfig::quiet();
+        c.response_timeout = Timeout::from_millis(self.response_timeout_ms).unwrap();
+        c.disable_unsol_classes = ec(self.disable_unsol);
+        c.enable_unsol_classes = ec(self.enable_unsol);
+        c.startup_integrity_classes = Classes { class0: self.startup_integrity[0], events: EventClasses::new(self.startup_integrity[1], self.startup_integrity[2], self.startup_integrity[3]) };
+        c.auto_time_sync = self.auto_time_sync.map(|x| match x {
+            0 => TimeSyncProcedure::Lan,
+            1 => TimeSyncProcedure::NonLan,
+            _ => TimeSyncProcedure::DirectWriteAbsTime,
+        });
+        c.auto_tasks_retry_strategy = RetryStrategy::new(Duration::from_millis(self.retry_min_ms), Duration::from_millis(self.retry_max_ms));
+        c.keep_alive_timeout = self.keep_alive_ms.map(Duration::from_millis);
+        c.auto_integrity_scan_on_buffer_overflow = self.integrity_on_overflow;
+        c.event_scan_on_events_available = ec(self.event_scan);
+        c.max_queued_user_requests = self.max_queued;
+        c
+    }
+}
+
+#[derive(Clone, Debug)]
+pub struct MasterCfg {
+    pub master_addr: u16,
+    pub tx: usize,
+    pub rx: usize,
+    pub decode: usize,
+    pub discard: bool,
+}
+
+impl Default for MasterCfg {
+    fn default() -> Self {
+        MasterCfg { master_addr: 1, tx: 2048, rx: 2048, decode: 0, discard: false }
+    }
+}
+
+/// association information / handler callbacks
+#[derive(Clone, Debug, PartialEq)]
+pub enum MEv {
+    TaskStart(String, u8, u8),
+    TaskSuccess(String, u8, u8),
+    TaskFail(String, String),
+    Unsolicited(bool, u8),
+}
+
+pub struct MShared {
+    /// (order stamp, virtual ms, association address, event)
+    pub log: Vec<(u64, u64, u16, MEv)>,
+    pub taken: usize,
+    pub clock: Clock,
+    /// master wall clock: value returned by get_current_time = base + virtual elapsed (None = no time available)
+    pub time_base: Option<u64>,
+    /// completed user requests: (id, submitted ms, completed ms, order stamp, result text)
+    pub results: Vec<(u64, u64, u64, u64, String)>,
+}
+
+#[derive(Clone)]
+pub struct MMock {
+    pub shared: Arc<Mutex<MShared>>,
+    pub addr: u16,
+}
+
+impl MMock {
+    fn push(&self, ev: MEv) {
+        let mut g = self.shared.lock().unwrap_or_else(|e| e.into_inner());
+        let t = g.clock.now_ms();
+        let o = io::bump();
+        g.log.push((o, t, self.addr, ev));
+    }
+}
+
+impl AssociationInformation for MMock {
+    fn task_start(&mut self, task_type: TaskType, fc: FunctionCode, seq: Sequence) {
+        self.push(MEv::TaskStart(format!("{task_type:?}"), fc.as_u8(), seq.value()));
+    }
+    fn task_success(&mut self, task_type: TaskType, fc: FunctionCode, seq: Sequence) {
+        self.push(MEv::TaskSuccess(format!("{task_type:?}"), fc.as_u8(), seq.value()));
+    }
+    fn task_fail(&mut self, task_type: TaskType, error: TaskError) {
+        self.push(MEv::TaskFail(format!("{task_type:?}"), format!("{error:?}")));
+    }
+    fn unsolicited_response(&mut self, is_duplicate: bool, seq: Sequence) {
+        self.push(MEv::Unsolicited(is_duplicate, seq.value()));
+    }
+}
+
+impl AssociationHandler for MMock {
+    fn get_current_time(&self) -> Option<Timestamp> {
+        let g = self.shared.lock().unwrap_or_else(|e| e.into_inner());
+        g.time_base.map(|b| Timestamp::new(b + g.clock.now_ms()))
+    }
+}
+
+/// a user request the harness can submit
+#[derive(Clone, Debug)]
+pub enum UserReq {
+    ReadClasses([bool; 4]),
+    ReadRange16(u8, u8, u16, u16),
+    /// select-before-operate?, control objects: (kind 0 crob|1..4 g41vN, index, 16-bit index?, value)
+    Command(bool, Vec<(u8, u16, bool, u32)>),
+    TimeSync(u8),
+    ColdRestart,
+    WarmRestart,
+    WriteDeadBands(Vec<(u16, u16)>),
+    LinkStatus,
+    EmptyResponse(u8),
+}
+
+pub struct MasterSim {
+    pub cfg: MasterCfg,
+    pub clock: Clock,
+    pub shared: Arc<Mutex<MShared>>,
+    pub channel: MasterChannel,
+    pub assocs: Vec<(u16, AssociationHandle, Recorder)>,
+    pub pipe: Pipe,
+    pub old_pipes: Vec<Pipe>,
+    conns: tokio::sync::mpsc::Sender<PhysLayer>,
+    pub join: tokio::task::JoinHandle<()>,
+    decoder: WireDecoder,
+    /// transport sequence per outstation address used for frames we send
+    pub tseq: u8,
+    pub epoch: u32,
+    next_id: u64,
+    pub run_errors: Arc<Mutex<Vec<String>>>,
+}
+
+pub fn build_commands(objs: &[(u8, u16, bool, u32)]) -> CommandHeaders {
+    let mut b = CommandBuilder::new();
+    for (kind, index, wide, value) in objs {
+        match kind {
+            0 => {
+                let c = Group12Var1::new(ControlCode::from_op_type(if value % 2 == 0 { OpType::LatchOn } else { OpType::LatchOff }), (*value % 3) as u8 + 1, *value, value / 2);
+                if *wide {
+                    b.add_u16(c, *index)
+                } else {
+                    b.add_u8(c, *index as u8)
+                }
+            }
+            1 => {
+                let c = Group41Var1::new(*value as i32);
+                if *wide {
+                    b.add_u16(c, *index)
+                } else {
+                    b.add_u8(c, *index as u8)
+                }
+            }
+            2 => {
+                let c = Group41Var2::new(*value as i16);
+                if *wide {
+                    b.add_u16(c, *index)
+                } else {
+                    b.add_u8(c, *index as u8)
+                }
+            }
+            3 => {
+                let c = Group41Var3::new(*value as f32 / 4.0);
+                if *wide {
+                    b.add_u16(c, *index)
+                } else {
+                    b.add_u8(c, *index as u8)
+                }
+            }
+            _ => {
+                let c = Group41Var4::new(*value as f64 / 8.0);
+                if *wide {
+                    b.add_u16(c, *index)
+                } else {
+                    b.add_u8(c, *index as u8)
+                }
+            }
+        }
+    }
+    b.build()
+}
+
+impl MasterSim {
+    pub async fn start(cfg: MasterCfg, assocs: &[AssocCfg]) -> MasterSim {
+        let clock = Clock::start();
+        let shared = Arc::new(Mutex::new(MShared { log: vec![], taken: 0, clock, time_base: Some(1_600_000_000_000), results: vec![] }));
+        let config = MasterChannelConfig {
+            master_address: EndpointAddress::try_new(cfg.master_addr).unwrap(),
+            decode_level: decode_level(cfg.decode),
+            tx_buffer_size: BufferSize::new(cfg.tx).unwrap(),
+            rx_buffer_size: BufferSize::new(cfg.rx.max(2048)).unwrap(),
+        };
+        let (tx, rx) = crate::util::channel::request_channel();
+        let modes = LinkModes { error_mode: if cfg.discard { LinkErrorMode::Discard } else { LinkErrorMode::Close }, read_mode: LinkReadMode::Stream };
+        let task = crate::master::task::MasterTask::new(Enabled::Yes, modes, ParseOptions { parse_zero_length_strings: false }, config, rx);
+        let mut channel = MasterChannel::new(tx, MasterChannelType::Stream);
+        let (conn_tx, mut conn_rx) = tokio::sync::mpsc::channel::<PhysLayer>(4);
+        let run_errors = Arc::new(Mutex::new(vec![]));
+        let errs = run_errors.clone();
+        let join = tokio::spawn(async move {
+            let mut session = Session::master(task);
+            loop {
+                // wait for a connection while still serving user messages (as the TCP client task does)
+                let phys = loop {
+                    tokio::select! {
+                        p = conn_rx.recv() => break p,
+                        r = session.process_next_message() => {
+                            if let Err(StopReason::Shutdown) = r {
+                                break None;
+                            }
+                        }
+                    }
+                };
+                let Some(mut phys) = phys else { break };
+                if session.wait_for_enabled().await.is_err() {
+                    break;
+                }
+                let err = session.run(&mut phys).await;
+                errs.lock().unwrap_or_else(|e| e.into_inner()).push(format!("{err:?}"));
+                io::bump();
+                if let RunError::Stop(StopReason::Shutdown) = err {
+                    break;
+                }
+            }
+        });
+        let mut handles = vec![];
+        for ac in assocs {
+            let rec = Recorder::new();
+            let mock = MMock { shared: shared.clone(), addr: ac.addr };
+            let h = channel
+                .add_association(EndpointAddress::try_new(ac.addr).unwrap(), ac.build(), Box::new(rec.clone()), Box::new(mock.clone()), Box::new(mock))
+                .await
+                .expect("add_association");
+            handles.push((ac.addr, h, rec));
+        }
+        let (pipe, phys) = io::phys_pipe(Some(clock.epoch));
+        let _ = conn_tx.send(phys).await;
+        settle().await;
+        MasterSim { cfg, clock, shared, channel, assocs: handles, pipe, old_pipes: vec![], conns: conn_tx, join, decoder: WireDecoder::new(), tseq: 0, epoch: 0, next_id: 0, run_errors }
+    }
+
+    pub fn now(&self) -> u64 {
+        self.clock.now_ms()
+    }
+
+    pub fn task_finished(&self) -> bool {
+        self.join.is_finished()
+    }
+
+    pub async fn advance(&mut self, ms: u64) {
+        advance(ms).await;
+    }
+
+    /// everything the master wrote since the last call
+    pub fn collect(&mut self) -> Vec<Rx> {
+        let mut out = vec![];
+        for p in self.old_pipes.clone() {
+            for t in p.take_tx() {
+                out.push(Rx::Garbage { ord: t.ord, t_ms: t.t_ms, why: "write on a connection that was replaced".into(), bytes: t.bytes });
+            }
+        }
+        for t in self.pipe.take_tx() {
+            self.decoder.feed(t.ord, t.t_ms, &t.bytes, &mut out);
+        }
+        out
+    }
+
+    /// send an application fragment from outstation `src` to the master
+    pub fn send_from(&mut self, src: u16, fragment: &[u8]) {
+        let mut tseq = self.tseq;
+        let bytes = encode_fragment(false, self.cfg.master_addr, src, fragment, &mut tseq);
+        self.tseq = tseq;
+        self.pipe.push(&bytes);
+    }
+
+    pub fn send_bytes(&mut self, bytes: &[u8]) {
+        self.pipe.push(bytes);
+    }
+
+    /// link-layer only frame from `src` (e.g. LINK_STATUS response)
+    pub fn send_link(&mut self, src: u16, func: u8) {
+        let f = rl::Frame::new(func, self.cfg.master_addr, src, &[]);
+        self.pipe.push(&f.encode());
+    }
+
+    /// close the connection; the master task returns from run() and waits for the next one
+    pub async fn reconnect(&mut self) {
+        self.pipe.push_eof();
+        settle().await;
+        let (pipe, phys) = io::phys_pipe(Some(self.clock.epoch));
+        let old = std::mem::replace(&mut self.pipe, pipe);
+        self.old_pipes.push(old);
+        self.decoder.reset();
+        self.tseq = 0;
+        self.epoch += 1;
+        let _ = self.conns.send(phys).await;
+        settle().await;
+    }
+
+    /// close without reconnecting
+    pub async fn disconnect(&mut self) {
+        self.pipe.push_eof();
+        settle().await;
+    }
+
+    pub async fn connect(&mut self) {
+        let (pipe, phys) = io::phys_pipe(Some(self.clock.epoch));
+        let old = std::mem::replace(&mut self.pipe, pipe);
+        self.old_pipes.push(old);
+        self.decoder.reset();
+        self.tseq = 0;
+        self.epoch += 1;
+        let _ = self.conns.send(phys).await;
+        settle().await;
+    }
+
+    /// submit a user request on association `ai`; returns its id. The result is appended to `shared.results`.
+    pub fn submit(&mut self, ai: usize, req: UserReq) -> u64 {
+        let id = self.next_id;
+        self.next_id += 1;
+        let mut h = self.assocs[ai].1.clone();
+        let shared = self.shared.clone();
+        let t0 = self.now();
+        tokio::spawn(async move {
+            let text = match req {
+                UserReq::ReadClasses(c) => format!("{:?}", h.read(ReadRequest::class_scan(Classes { class0: c[0], events: EventClasses::new(c[1], c[2], c[3]) })).await),
+                UserReq::ReadRange16(g, v, a, b) => match Variation::lookup(g, v) {
+                    Some(var) => format!("{:?}", h.read(ReadRequest::two_byte_range(var, a, b)).await),
+                    None => "Err(bad variation)".into(),
+                },
+                UserReq::Command(sbo, objs) => format!("{:?}", h.operate(if sbo { CommandMode::SelectBeforeOperate } else { CommandMode::DirectOperate }, build_commands(&objs)).await),
+                UserReq::TimeSync(p) => format!(
+                    "{:?}",
+                    h.synchronize_time(match p {
+                        0 => TimeSyncProcedure::Lan,
+                        1 => TimeSyncProcedure::NonLan,
+                        _ => TimeSyncProcedure::DirectWriteAbsTime,
+                    })
+                    .await
+                ),
+                UserReq::ColdRestart => format!("{:?}", h.cold_restart().await),
+                UserReq::WarmRestart => format!("{:?}", h.warm_restart().await),
+                UserReq::WriteDeadBands(v) => format!("{:?}", h.write_dead_bands(vec![DeadBandHeader::group34_var1_u16(v)]).await),
+                UserReq::LinkStatus => format!("{:?}", h.check_link_status().await),
+                UserReq::EmptyResponse(f) => match FunctionCode::from(f) {
+                    Some(fc) => format!("{:?}", h.send_and_expect_empty_response(fc, Headers::new()).await),
+                    None => "Err(bad function)".into(),
+                },
+            };
+            let mut g = shared.lock().unwrap_or_else(|e| e.into_inner());
+            let t1 = g.clock.now_ms();
+            let o = io::bump();
+            g.results.push((id, t0, t1, o, text));
+        });
+        id
+    }
+
+    pub fn result_of(&self, id: u64) -> Option<(u64, u64, u64, String)> {
+        let g = self.shared.lock().unwrap_or_else(|e| e.into_inner());
+        g.results.iter().find(|r| r.0 == id).map(|r| (r.1, r.2, r.3, r.4.clone()))
+    }
+
+    pub fn results_count(&self, id: u64) -> usize {
+        let g = self.shared.lock().unwrap_or_else(|e| e.into_inner());
+        g.results.iter().filter(|r| r.0 == id).count()
+    }
+
+    /// callbacks since the last call: (order, ms, association, event)
+    pub fn take_events(&self) -> Vec<(u64, u64, u16, MEv)> {
+        let mut g = self.shared.lock().unwrap_or_else(|e| e.into_inner());
+        let s = g.taken;
+        g.taken = g.log.len();
+        g.log[s..].to_vec()
+    }
+
+    pub fn all_events(&self) -> Vec<(u64, u64, u16, MEv)> {
+        self.shared.lock().unwrap_or_else(|e| e.into_inner()).log.clone()
+    }
+
+    pub fn set_time_base(&self, base: Option<u64>) {
+        self.shared.lock().unwrap_or_else(|e| e.into_inner()).time_base = base;
+    }
+}
+
+/// requests (application fragments) in a list of received items
+pub fn requests(rx: &[Rx]) -> Vec<(u64, u64, u16, Vec<u8>)> {
+    rx.iter()
+        .filter_map(|x| match x {
+            Rx::Fragment { ord, t_ms, dest, bytes, .. } => Some((*ord, *t_ms, *dest, bytes.clone())),
+            _ => None,
+        })
+        .collect()
+}
